@@ -38,3 +38,4 @@ func vxUnlock()
 func vxJitter()
 func vxLibRead(b []byte)
 func vxLibWrite(b []byte)
+func vxAssertE(c bool, id string)
